@@ -29,6 +29,7 @@ extern "C" const char *__ubsan_default_options() { return "halt_on_error=1:exitc
 struct Args {
     std::string mode, profile = "ssv", out, known, replay_dir = "/verif/replays", errdir, file, dump_case, flavour = "plain";
     uint64_t base = 0, seed = 0; long count = 100; int workers = 16, tier = 0, S = 8; bool verbose = false;
+    std::string dump_hashes;
     double timeout_s = 30, wall_cap_s = 0; int force_prec = -1; bool no_min = false; long max_min_runs = 400;
 };
 
@@ -375,6 +376,7 @@ static int cmd_batch(const Args &a) {
     std::string errdir = a.errdir.empty() ? std::string("/verif/build/tmp") : a.errdir;
     mkdir("/verif/build", 0755); mkdir(errdir.c_str(), 0755); mkdir(a.replay_dir.c_str(), 0755);
     Agg agg;
+    FILE *hf = a.dump_hashes.empty() ? nullptr : fopen(a.dump_hashes.c_str(), "w");
     std::vector<Slot> slots((size_t)a.workers);
     auto spawn = [&](int s, long start_idx, bool skip_baseline) {
         Slot &sl = slots[s];
@@ -420,7 +422,7 @@ static int cmd_batch(const Args &a) {
                     if (line.size() > 2 && line[0] == 'T') sl.tag = line.substr(2);
                     else if (line.size() > 2 && line[0] == 'B') { sl.tag.clear(); sl.sigfn.clear(); sl.inflight = true; sl.inflight_seed = strtoull(line.c_str() + 2, nullptr, 10); sl.since = tn; }
                     else if (line.size() > 2 && line[0] == 'R') {
-                        J res; if (J::parse_str(line.substr(2), res)) { agg.add(res); }
+                        J res; if (J::parse_str(line.substr(2), res)) { agg.add(res); if (hf) { std::string vs; if (const J *vv = res.get("viol")) for (auto &x : vv->a) vs += x.str("p") + ":" + x.str("sig") + ","; fprintf(hf, "%lld %s %s %s %s %s\n", res.num("seed"), res.str("hs").c_str(), res.str("ho").c_str(), res.str("hshape").c_str(), res.str("end").c_str(), vs.c_str()); } }
                         else ++machinery_faults;
                         sl.inflight = false; sl.next_idx = (long)(sl.inflight_seed - a.base) + 1;
                     } else if (line.size() > 2 && line[0] == 'X') { J x; if (J::parse_str(line.substr(2), x)) { sl.sigc = (int)x.num("signal"); sl.sigfn = x.str("fn"); } }
@@ -456,6 +458,7 @@ static int cmd_batch(const Args &a) {
         }
     }
     for (auto &sl : slots) if (!sl.errfile.empty()) unlink(sl.errfile.c_str());
+    if (hf) fclose(hf);
     double t1 = now_s();
 
     // ---- violations: replay files (minimised), gated
@@ -579,7 +582,7 @@ int main(int argc, char **argv) {
         else if (k == "--errdir") a.errdir = val(); else if (k == "-v") a.verbose = true; else if (k == "--timeout") a.timeout_s = atof(val().c_str());
         else if (k == "--wall-cap") a.wall_cap_s = atof(val().c_str()); else if (k == "--prec") a.force_prec = atoi(val().c_str());
         else if (k == "--dump-case") a.dump_case = val(); else if (k == "--no-min") a.no_min = true; else if (k == "--flavour") a.flavour = val();
-        else if (k == "--S") a.S = atoi(val().c_str()); else if (k == "--max-min-runs") a.max_min_runs = atol(val().c_str());
+        else if (k == "--S") a.S = atoi(val().c_str()); else if (k == "--dump-hashes") a.dump_hashes = val(); else if (k == "--max-min-runs") a.max_min_runs = atol(val().c_str());
         else if ((a.mode == "replay" || a.mode == "runfile") && a.file.empty()) a.file = k;
     }
     a.base -= a.base % (uint64_t)a.S;
